@@ -168,8 +168,14 @@ func runC04(c *core.Ctx) {
 			want string
 		}{{svcF, "service"}, {objF, "object"}, {actF, "action"}} {
 			ok := len(rs) > 0
+			sent0 := core.RootOf(core.Canon(cc.send.Common().Args[0]))
+			fld, kk := fe.f, k
+			isHdrF := func(v ssa.Value) bool { return isFieldOf(v, fld) && isParamRooted(v) }
+			isSentF := func(v ssa.Value) bool {
+				return sentHeaderField(cc.subst, sent0, fld, v) && builtWithAPIParams(cc.fn, sent0, kk)
+			}
 			for _, r := range rs {
-				if !core.Guarded(cc.filter, r, hdrFieldEqParam(fe.f, cc.fn, k, cc.subst)) {
+				if !core.Guarded(cc.filter, r, hdrFieldEqParam(fe.f, cc.fn, k, cc.subst)) && !core.Guarded(cc.filter, r, core.Eq(isHdrF, isSentF)) {
 					ok = false
 				}
 			}
@@ -181,6 +187,9 @@ func runC04(c *core.Ctx) {
 		// the message this call sends: the first argument of its Send
 		sent := core.RootOf(core.Canon(cc.send.Common().Args[0]))
 		isOwnID := func(v ssa.Value) bool {
+			if sentHeaderField(cc.subst, sent, idF, v) {
+				return true // the id field of a copy of the sent message's header
+			}
 			v = substValue(cc.subst, v) // captured directly, or through the filter's factory / receiver
 			if !isFieldOf(v, idF) {
 				return false
@@ -264,6 +273,11 @@ func runC04(c *core.Ctx) {
 	c.Doc("C04.delivery", "dispatch is the only sender on handler queues; single-shot handlers are removed in the same critical section", 2)
 	ruleSendOwner(c, a, lc, "C04.delivery")
 	ruleCloseWithCallers(c, a, lc, "C04.delivery")
+	// "each call returns exactly one outcome": a call that registers its handler while the
+	// connection is being shut down gets its outcome from the shutdown sweep or from a Send
+	// that fails — which requires the stream to be closed before the sweep (rule shared with C11)
+	c.Doc("C11.shutdown", "closeWith closes the stream (before taking the handler mutex) and every registered handler with the error — rule shared with C11", 4)
+	ruleShutdown(c, a)
 }
 
 func constOf(c *core.Ctx, rel, name string) int64 {
@@ -532,21 +546,36 @@ func sendErrorOnlyAnswersCalls(c *core.Ctx, isType func(ssa.Value) bool) (all bo
 		sends := 0
 		delegates := 0
 		bad := ""
-		for _, call := range core.Calls(fn) {
-			cc := call.Common()
-			name := ""
-			if cc.IsInvoke() {
-				name = cc.Method.Name()
-			} else if f := cc.StaticCallee(); f != nil {
-				name = f.Name()
-			}
-			switch name {
-			case "SendError":
-				delegates++
-			case "Send", "NewMessage", "NewHeader":
-				sends++
-				if !core.Guarded(fn, call.(ssa.Instruction), core.Eq(isType, isCall)) {
-					bad = "an error answer is built or sent (at " + c.Pos(call.Pos()) + ") without the request having been checked to be a Call: a one-way post (or a reply, an event, a cancel) is answered with an Error message"
+		// the method and the private helpers it hands the work to (sendErrorWith(c.Send, msg, err))
+		for _, uf := range unitOf(c, fn) {
+			for _, call := range core.Calls(uf) {
+				cc := call.Common()
+				name := ""
+				if cc.IsInvoke() {
+					name = cc.Method.Name()
+				} else if f := cc.StaticCallee(); f != nil {
+					name = f.Name()
+				} else if p, isParam := core.Canon(cc.Value).(*ssa.Parameter); isParam && uf != fn {
+					// the helper was handed the channel's Send as a function value
+					if _, isFunc := p.Type().Underlying().(*types.Signature); isFunc {
+						name = "Send"
+					}
+				}
+				switch name {
+				case "SendError":
+					if uf == fn {
+						delegates++
+					}
+				case "Send", "NewMessage", "NewHeader":
+					sends++
+					in := call.(ssa.Instruction)
+					guarded := core.Guarded(uf, in, core.Eq(isType, isCall))
+					if !guarded && uf != fn {
+						guarded = guardedUp(c, uf, in, core.Eq(isType, isCall))
+					}
+					if !guarded {
+						bad = "an error answer is built or sent (at " + c.Pos(call.Pos()) + ") without the request having been checked to be a Call: a one-way post (or a reply, an event, a cancel) is answered with an Error message"
+					}
 				}
 			}
 		}
